@@ -35,7 +35,8 @@ TimeToks == << <<"0","3","/","0","4","/","1","9","7","0">>,
                <<"2","5","/","1","2","/","1","9","7","0">>,
                <<"1","2","/","2","5","/","1","9","7","0">>,
                <<"1","9","7","0","-","0","1","-","0","2","T","0","3",":","0","4",":","0","5","Z">>,
-               <<"0","3","/","0","4">> >>
+               <<"0","3","/","0","4">>,
+               <<"1","2","/","3","0">> >>      \* year-less, early and late in the year: one of the two lies in the future
 OddToks == << <<"x","-","1">>, <<"5","x">>, <<"-","4">>, <<"1",".","5",".","2">> >>
 AllToks == Words \o IntToks \o FloatToks \o OddToks \o (IF Profile = "time" THEN TimeToks ELSE <<>>)
 Files == << <<"l","o","g","A">>, <<"l","o","g","B">> >>
